@@ -12,6 +12,7 @@ Binding demonstrated in a scratch worktree (see notes/ws.md): an `endswith` orig
 substring test for the Connection token and a client that does not compare the accept value are
 each reported.
 """
+import os
 import time
 
 from harness import framework
@@ -93,12 +94,13 @@ def replayer(extra, path):
 
 
 def run(ctx):
-    t0 = time.time()
-    ctx.mc("ws", "WsHandshake", "MC_WsHandshake.cfg", overrides={"MaxDev": ctx.pick(2, 3)})
-    ctx._phase("mc", t0)
+    # one TLC run enumerates the table, checks ServerExactly / ClientExactly on every row (INVARIANT
+    # lines of the cfg) and dumps the rows with their verdicts
     t0 = time.time()
     rows = ctx.gen_states("ws", "WsHandshake", "MC_WsHandshake.cfg", overrides={"MaxDev": ctx.pick(2, 3)})
-    ctx._phase("gen", t0)
+    if not any(r["row"]["side"] == "server" for r in rows) or not any(r["row"]["side"] == "client" for r in rows):
+        raise framework.Machinery("vacuity: WsHandshake produced no server or no client rows")
+    ctx._phase("mc+gen", t0)
     t0 = time.time()
     items = [({}, [{"act": "handshake", "args": [r["row"]], "exp": r["exp"]}]) for r in rows]
     ctx.replay(items, replayer, nontrivial=lambda e, p: True)
